@@ -36,13 +36,22 @@ func mkdumps(args []string) int {
 			Src   []int  `json:"src"`
 			Shape string `json:"shape"`
 			N     int    `json:"n"`
+			Kind  string `json:"kind"`
+			Fam   string `json:"fam"`
 		}
-		if json.Unmarshal(raw, &c) != nil || (len(c.Src) == 0 && c.Shape == "") {
+		if json.Unmarshal(raw, &c) != nil || (len(c.Src) == 0 && c.Shape == "" && c.Fam != "format") {
 			return
 		}
 		src := bytesOf(c.Src)
 		if c.Shape != "" {
 			src = []byte(scaleSource(c.Shape, c.N))
+		}
+		if c.Fam == "format" {
+			// scaling-law programs of Gen_Format (string constants, identifiers, offsets of n bytes), the sizes TLC can decode
+			if c.Kind == "header" || c.Kind == "bytes" || c.Kind == "name" || c.N > 2400 {
+				return
+			}
+			src, _ = sizeSource(c.Kind, c.N)
 		}
 		if !s.note(src, true, raw) || n >= max {
 			return
